@@ -286,6 +286,11 @@ func judgeConversation(name string, c convTerminal, h History, firstPlatformSeri
 				nw++
 			}
 		}
+		if nw == 0 {
+			// the callback runs after the bytes left: a scenario that ends right behind the last reply may be over before a
+			// (sleeping, pre-empted) callback has recorded - re-run, 2 of 3
+			return nil, fmt.Errorf("SOFT %s: reply %d (%x) was reported to the write callback 0 times, want exactly once with the bytes sent", name, k, []byte(recv[k].Data))
+		}
 		if nw != 1 {
 			return nil, fmt.Errorf("%s: reply %d (%x) was reported to the write callback %d times, want exactly once with the bytes sent", name, k, []byte(recv[k].Data), nw)
 		}
